@@ -13,7 +13,7 @@ use rand_pcg::Pcg32;
 use crate::bearing::process_path_bearing;
 use crate::context::{ElementMap, TransformerContext};
 use crate::element::SvgElement;
-use crate::events::{InputList, OutputList};
+use crate::events::{InputList, OutputEvent, OutputList};
 use crate::expression::{eval_attr, eval_condition, eval_list, eval_vars};
 use crate::position::{
     strp_length, BoundingBox, Length, LocSpec, Position, ScalarSpec, TrblLength,
@@ -319,4 +319,52 @@ pub fn transform_probe(input: &[u8], cfg: &TransformConfig) -> Probe {
         rng_draws: draws(&t.context, t.context.config.seed),
         multi_error_lines: lines,
     }
+}
+
+/// The reader's view of a document: (event kind, raw bytes between the delimiters) per event.
+pub fn read_events(input: &[u8]) -> R<Vec<(String, Vec<u8>)>> {
+    use quick_xml::events::Event;
+    let mut rd = quick_xml::Reader::from_reader(Cursor::new(input.to_vec()));
+    rd.config_mut().check_comments = true;
+    let mut buf = Vec::new();
+    let mut out = vec![];
+    loop {
+        let ev = rd.read_event_into(&mut buf).map_err(|e| format!("{:?}", e))?;
+        let kind = match &ev {
+            Event::Start(_) => "start",
+            Event::Empty(_) => "empty",
+            Event::End(_) => "end",
+            Event::Text(_) => "text",
+            Event::CData(_) => "cdata",
+            Event::Comment(_) => "comment",
+            Event::Decl(_) => "decl",
+            Event::PI(_) => "pi",
+            Event::DocType(_) => "doctype",
+            Event::Eof => break,
+        };
+        out.push((kind.to_string(), ev.as_ref().to_vec()));
+        buf.clear();
+    }
+    Ok(out)
+}
+
+/// Serialise a list of output events: kind in start / empty / end / text / comment / cdata;
+/// for start / empty the payload is the element (name, attributes incl. `class`), otherwise a string.
+pub fn write_events(events: &[(String, RawElement, String)]) -> R<Vec<u8>> {
+    let mut list = OutputList::new();
+    for (kind, el, s) in events {
+        let ev = match kind.as_str() {
+            "start" => OutputEvent::Start(mk_el(el, 0)),
+            "empty" => OutputEvent::Empty(mk_el(el, 0)),
+            "end" => OutputEvent::End(s.clone()),
+            "text" => OutputEvent::Text(s.clone()),
+            "comment" => OutputEvent::Comment(s.clone()),
+            "cdata" => OutputEvent::CData(s.clone()),
+            other => return Err(format!("unknown event kind {other}")),
+        };
+        list.push(ev);
+    }
+    let mut out = Vec::new();
+    es(list.write_to(&mut out))?;
+    Ok(out)
 }
